@@ -437,22 +437,26 @@ class Body:
                 base += "?"
         return base
 
-    def alpha(self):
+    def alpha(self, args=False):
         """context manager: while active, user variable names render as $1, $2, ... in order of first appearance,
-        so that a rendering does not depend on what the variables are called."""
+        so that a rendering does not depend on what the variables are called.  With args=True parameters render by
+        position (arg1, arg2, ...) instead, which keeps them distinguishable and is equally rename-proof."""
         body = self
 
         class _A:
             def __enter__(self_):
-                self_.old = getattr(body, "_alpha", None)
+                self_.old = (getattr(body, "_alpha", None), getattr(body, "_alpha_args", False))
                 body._alpha = {}
+                body._alpha_args = args
                 return body
 
             def __exit__(self_, *a):
-                body._alpha = self_.old
+                body._alpha, body._alpha_args = self_.old
         return _A()
 
     def lname(self, l, depth=4, seen=None):
+        if 1 <= l <= self.argc and getattr(self, "_alpha", None) is not None and getattr(self, "_alpha_args", False) and self.kind != "Closure":
+            return "arg%d" % l
         if l in self.names:
             am = getattr(self, "_alpha", None)
             if am is not None:
